@@ -68,6 +68,9 @@ pub const PROBES: &[&str] = &[
     // one sorted let-table read twice, its sort key dropped by its select: which instance carries the hidden key?
     "let s = (from t | derive k = a * 2 | sort {-k} | select {a, b})\nfrom s | join s2 = s (s.a == s2.b) | select {s.a, s2.b} | take 4",
     "let s = (from t | derive k = a * 2 | sort {-k} | select {a, b})\nfrom x = s | join y = s (x.a == y.b) | join z = s (x.a == z.b) | select {x.a, y.b, z.b} | take 4 | filter a > 0",
+    // no main pipeline, several named ones: error text (hints that list declarations)
+    "let pa = (from t1 | take 1)\nlet pb = (from t2 | take 2)\nlet pc = (from t3 | take 3)\nlet pd = (from t4)",
+    "module m { let pa = (from t1)\n let pb = (from t2) }\nlet pc = (from t3)\nlet pd = 5",
     // two / three unknown header options: error text
     "prql foo:1 bar:2\nfrom t",
     "prql zeta:\"z\" alpha:1 target:sql.sqlite mid:2\nfrom t",
